@@ -58,16 +58,16 @@ var qhTypes = []ptypeDef{
 	{"time", map[string]any{"type": "string", "format": "date-time"}},
 }
 
-var queryNames = []string{"q", "page", "limit", "user_id", "ids", "from", "sort-by", "flag"}
+var queryNames = []string{"q", "page", "limit", "user_id", "ids", "from", "sort-by", "flag", "page[size]", "order by", "filter:x"}
 var headerNames = []string{"X-Request-Id", "x-trace", "Accept-Lang", "X-Count", "x-request-id", "If-Flag", "Accept", "content-type", "If-Match"}
 
 var lexemes = map[string][]string{
-	"str":   {"abc", "", "a b", "x/y", "é", "0"},
-	"int":   {"0", "7", "-3", "+5", "007", "2147483647", "2147483648", "-2147483649", "9223372036854775807", "9223372036854775808", "-9223372036854775808", "-9223372036854775809", "1_0", "abc", "", "1.0", " 1", "-", "+"},
+	"str":   {"abc", "", "a b", "x/y", "é", "0", "red,dark"},
+	"int":   {"0", "7", "-3", "+5", "007", "2147483647", "2147483648", "-2147483649", "9223372036854775807", "9223372036854775808", "-9223372036854775808", "-9223372036854775809", "1_0", "abc", "", "1.0", " 1", "-", "+", "1,2"},
 	"int32": {"0", "7", "-3", "+5", "007", "2147483647", "2147483648", "-2147483648", "-2147483649", "9223372036854775807", "abc", "", "1e3"},
 	"int64": {"0", "-1", "9223372036854775807", "9223372036854775808", "-9223372036854775808", "-9223372036854775809", "00", "abc", "", "0x10"},
 	"bool":  {"true", "false", "1", "0", "t", "F", "TRUE", "True", "yes", "", "tRUE", "T", "f", "FALSE", "False"},
-	"f64":   {"1.5", "1e3", "-0", "Inf", "-Inf", "1e400", "abc", "", "0x1p-2", "1_0", ".5", "5.", "1e-400", "NaN"},
+	"f64":   {"1.5", "1e3", "-0", "Inf", "-Inf", "1e400", "abc", "", "0x1p-2", "1_0", ".5", "5.", "1e-400", "NaN", "1.5,2"},
 	"f32":   {"1.5", "1e3", "3.4e38", "3.5e38", "1e-46", "abc", "", "16777217", "-0"},
 	"time":  {"2024-01-02T03:04:05Z", "2024-01-02T03:04:05.123456789+02:00", "2024-01-02", "", "2024-13-01T00:00:00Z", "2024-01-02t03:04:05z", "2024-01-02T03:04:05", "0000-01-01T00:00:00Z"},
 }
@@ -208,7 +208,17 @@ type baseForm struct {
 }
 
 func genBase(rng *PRNG) baseForm {
-	switch rng.Intn(10) {
+	switch rng.Intn(13) {
+	case 10:
+		// one server variable used twice, the second time in the path
+		return baseForm{servers: []any{map[string]any{"url": "https://{tenant}.example.com:{port}/{tenant}/{version}", "variables": map[string]any{
+			"tenant": map[string]any{"default": "acme"}, "port": map[string]any{"default": "443"}, "version": map[string]any{"default": "v1"}}}}, eff: "/acme/v1"}
+	case 11:
+		// a relative server URL: the base path has no leading slash, so no request path (they all
+		// start with one) lies beneath it
+		return baseForm{servers: []any{map[string]any{"url": "api/v1"}}, eff: "api/v1"}
+	case 12:
+		return baseForm{flag: "rel/base", eff: "rel/base"}
 	case 0:
 		return baseForm{servers: []any{map[string]any{"url": "/"}}, eff: ""}
 	case 1:
